@@ -223,7 +223,7 @@ TIME_STEPS = [60, 2 * 86400, 4 * 86400 + 50000]      # seconds between consecuti
 
 def run_case(shape, heads, tagged, matching, step_s=60) -> None:
     import ak.ghist as G
-    messages = {c: ("BUG-1 fix" if c in matching else "other BUG-10x") for c in shape}
+    messages = {c: ("BUG-1.(x) fix" if c in matching else "other BUG-10x") for c in shape}
     tags = {c: f"build_{100 + c}_release_1_0_success" for c in tagged}
     repo = StubRepo("main", shape, messages, tags, heads, step_s=step_s)
 
@@ -232,7 +232,7 @@ def run_case(shape, heads, tagged, matching, step_s=60) -> None:
     what = f"graph {shape} heads {heads} tags {sorted(tagged)} matching {sorted(matching)} commit-spacing {step_s}s"
     try:
         coll = Coll({"main": G.ProjectRepo("main", repo, "origin")})
-        data = coll.make_reports_data("BUG-1 ")
+        data = coll.make_reports_data("BUG-1.(x)")          # the search text is a literal substring (it looks like a regular expression that would match the other messages)
     except Exception as e:  # noqa
         raise Violation(f"raises :: {what}: {type(e).__name__}: {e}")
     (_, rgraph), = data
